@@ -14,27 +14,21 @@ use rand::SeedableRng;
 use rand_chacha::ChaCha8Rng;
 
 #[test]
-fn ops_body_tail_is_parsed_as_packets() {
-    let (ssk, _) =
-        SignedSecretKey::from_armor_file("./tests/draft-bre-openpgp-samples-00/bob.sec.asc")
-            .unwrap();
+fn ops_body_tail_is_not_parsed_as_packets() {
+    let (ssk, _) = SignedSecretKey::from_armor_file("./tests/draft-bre-openpgp-samples-00/bob.sec.asc").unwrap();
     let rng = ChaCha8Rng::seed_from_u64(3);
 
     // a regular one pass signed message: OPS, LIT, SIG
     let mut b = MessageBuilder::from_bytes("", b"EVIL".to_vec());
     b.sign(&ssk.primary_key, Password::empty(), HashAlgorithm::Sha256);
     let inner = b.to_vec(rng).unwrap();
-
     let pk: Vec<_> = PacketParser::new(&inner[..]).collect::<Result<Vec<Packet>, _>>().unwrap();
     assert_eq!(pk.len(), 3);
-    // the OPS packet of that message: 2 octets header, 13 octets body
-    assert_eq!(inner[0], 0xC4);
-    assert_eq!(inner[1], 13);
+    assert_eq!((inner[0], inner[1]), (0xC4, 13)); // the OPS packet: 2 octets header, 13 octets body
     let ops_body = &inner[2..15];
     let rest = &inner[15..]; // LIT, SIG
 
-    // ONE packet: an OPS packet whose body is the 13 OPS octets, filler up to 8192, and then
-    // the octets of LIT and SIG.
+    // ONE packet: an OPS packet whose body is the 13 OPS octets, filler up to 8192, and then the octets of LIT and SIG
     let body_len = 8192 + rest.len();
     let mut stream = vec![0xC4, 0xFF];
     stream.extend_from_slice(&(body_len as u32).to_be_bytes());
@@ -45,21 +39,13 @@ fn ops_body_tail_is_parsed_as_packets() {
     // the packet level view: a single (over long) OPS packet, rejected
     let pk: Vec<_> = PacketParser::new(&stream[..]).collect();
     assert_eq!(pk.len(), 1);
-    let _ = format!("packet parser: {:?}", pk[0].as_ref().map(|_| ()).map_err(|e| e.to_string()));
     assert!(pk[0].is_err());
 
-    // the message level view
-    let res = Message::from_bytes(&stream[..]);
-    match res {
-        Err(e) => let _ = format!("message: rejected: {e}"),
-        Ok(mut msg) => {
-            let _ = format!("message: accepted, one pass signed: {}", msg.is_one_pass_signed());
-            let mut data = Vec::new();
-            let r = msg.read_to_end(&mut data);
-            let _ = format!("data: {:?} {:?}", String::from_utf8_lossy(&data), r.map_err(|e| e.to_string()));
-            let v = msg.verify(&ssk.primary_key.public_key());
-            let _ = format!("verify: {:?}", v.map(|_| ()).map_err(|e| e.to_string()));
-            panic!("ACCEPTED");
-        }
+    // the message level view must not be a valid signed message
+    if let Ok(mut msg) = Message::from_bytes(std::io::Cursor::new(stream.clone())) {
+        let mut data = Vec::new();
+        let read = msg.read_to_end(&mut data);
+        let verified = msg.verify(&ssk.primary_key.public_key()).is_ok();
+        assert!(!(read.is_ok() && verified), "one over-long OPS packet was read as the signed message {:?}", String::from_utf8_lossy(&data));
     }
 }
